@@ -1878,6 +1878,10 @@ impl DtlsInner {
                             let _ = self.conn.send(&buf).await;
                         }
                     }
+                    // Publish a terminal state: whoever waits on the state watch
+                    // (e.g. the transport start-up, mid-handshake) must see the close.
+                    *self.state.lock() = DtlsState::Closed;
+                    let _ = self.state_tx.send(DtlsState::Closed);
                     return Ok(());
                 }
                 // Handshake timeout — abort if the peer never responds.
@@ -1896,6 +1900,8 @@ impl DtlsInner {
                 packet = handshake_rx.recv() => {
                     let Some(packet) = packet else {
                         debug!("DTLS handshake feeder closed — exiting loop");
+                        *self.state.lock() = DtlsState::Closed;
+                        let _ = self.state_tx.send(DtlsState::Closed);
                         return Ok(());
                     };
                     if let Err(e) = self.handle_incoming_packet(packet, &mut ctx, &incoming_data_tx, &certificate, is_client).await {
